@@ -25,6 +25,7 @@ WITNESS = {
     "EquiSpaced::new": "strategies",
     "_get_many_from_sorted_mut_unchecked": "select_many",
     "inner_weighted_var": "moments", "weighted_var": "moments", "weighted_std": "moments", "horner_method": "moments", "moments": "moments",
+    "entropy": "entropy", "kl_divergence": "entropy", "cross_entropy": "entropy",
     "central_moment": "moments", "central_moments": "moments", "kurtosis": "moments", "skewness": "moments",
 }
 
@@ -39,7 +40,6 @@ NOTES = ("Contract-based deductive verification: ./check <id> extracts the real 
          "runs Verus, maps failed obligations to properties through clause tags, replays/witness-searches on the real crate. exit 2 = INCONCLUSIVE (never an alarm).")
 NOT_APPLICABLE = {
     "C08": "covariance/Pearson accuracy, symmetry and invariances hold only up to roundoff and the computation is ndarray's dot (matrixmultiply, unsafe) - outside both verifiers (error paths are covered by C17)",
-    "C10": "defined through ln of floats; neither verifier has a semantics for ln and the identities hold only up to roundoff (error paths are covered by C17)",
 }
 
 A_REAL = "A-REAL (machine arithmetic treated as mathematical): in the Verus units `moments`/`entropy`/`cov` every value of the float type denotes a real number and + - * / neg, comparisons, from_usize are the exact real operations (ln, sqrt, exp: uninterpreted real functions); what is proved is that the routine computes the formula of the property. Rounding is outside this model: the size of the error is measured only by the bounded enumerations against an exact rational oracle"
@@ -249,6 +249,18 @@ PROPS.update({
         "assumptions": [A_VERUS, A_EXTRACT, A_ENUM, "A-ND (n-D) incl. Zip::for_each as stated in shim/zip.rs", "A-NUM: generic Sub/Mul/AddAssign/abs/zero are deterministic and defined for all operands (arith_total)"],
         "not_decided": ["float inputs (roundoff), big-integer element types beyond the generic statement", "l2_dist / mean_* / psnr as functions of the exact distances: bounded only"],
         "rule": "one case per (shape, contents of both operands, layout pair); non-trivial = at least 2 elements and operands differ",
+    },
+    "C10": {
+        "level": "exploration",
+        "level_text": "two parts. (1) Formula and structure, proved: under the exact-arithmetic reading with finiteness (A-REAL: a value is an ordinary number or not; operations on ordinary numbers are the exact real operations; ln is an uninterpreted real function defined for positive arguments only, so that 0 * ln 0 is *not* an ordinary number), Verus discharges on the extracted bodies of entropy, kl_divergence and cross_entropy (after the mechanical rewrite R11b of `Zip::from(&mut temp).and(self).and(q).for_each(closure)` into a loop over the index-aligned triples, visited in an unspecified order) and of `impl From<ShapeMismatch> for MultiInputError`: for arrays of ordinary non-negative numbers of every dimensionality and layout (q may be zero only where p is zero), the result is an ordinary number equal to -sum x ln x, -sum p ln(q/p), -sum p ln q with p and q paired by logical index and every term whose x (p) is zero contributing exactly zero - removing a zero branch fails the proof -; EmptyInput for an empty receiver; ShapeMismatch carrying both shapes for different shapes. (2) Roundoff, identities and NaN rules, bounded: on the real crate (f64 and f32) the result is compared with minus the exactly summed element-type terms within 2(n+1)u sum|terms|, KL(p,p) == 0, H(p,q) = H(p) + KL(p,q) within roundoff, KL >= 0 and H <= ln n for exactly normalised vectors, a NaN in a contributing term gives NaN (and a NaN q under a zero p does not), mixed layouts of p and q",
+        "level_note": "NOT counted as proof of the property: rounding and the algebraic identities of ln are not modelled. trusted: A-ND n-D (mapv, sum, raw_dim, Array::zeros, Zip over three operands: each index once, elements at the same index, unspecified order), vstd's operator specs. bounded: enum:entropy as described in its bound string",
+        "technique": "Verus contracts in exact arithmetic with finiteness on the extracted entropy / KL / cross-entropy bodies (Zip closure lowered to a loop) + bounded comparison of the real crate with exactly summed terms, identities and NaN rules",
+        "design_ref": "DESIGN.md 8d (C10)",
+        "verus": [("entropy", "N")],
+        "enum": [{"name": "entropy"}],
+        "assumptions": [A_REAL, A_VERUS, A_EXTRACT, A_ENUM, "A-ND (n-D) mapv/sum/zeros/raw_dim/Zip as stated in shim/realnum.rs and shim/entropy.rs"],
+        "not_decided": ["roundoff beyond the enumerated inputs; the inequalities KL >= 0 and H <= ln n as mathematical facts about ln (ln is uninterpreted in the proofs)"],
+        "rule": "one case per (element type, shape, contents of p and q) x layout pairings; non-trivial = at least 2 elements",
     },
     "C11": {
         "level": "proof",
